@@ -957,6 +957,12 @@ def gen_operations(rng, sch, n=3):
 
 # ------------------------------------------------------------------ labelled invalidators (C13)
 BAD_NAMES = ["", "1abc", "__x", "a-b", "a b", "été", "ok\n", "a$"]
+# start like a name, continue with a non-ASCII letter / digit / connector that Python's
+# Unicode-aware \w would take: none of them is a GraphQL name character
+UNICODE_BAD_NAMES = ["caf\u00e9", "Stra\u00dfe", "na\u00efve", "size\u0663", "NGSTROM_\u00b5", "a\u00aa", "x\u00ba",
+                     "n\u2160", "d\uff10", "e\u0301x", "a\uff3fb", "\u00e9", "_\u4e2d"]
+BAD_NAMES = BAD_NAMES + UNICODE_BAD_NAMES
+BAD_TYPE_NAMES = ["1Bad", "__Bad", "Ba-d", "Bad\n", "B\u00e4d", "Typ\u00e9", "T\u0663", "T\uff3fx"]
 
 
 def spec_subtype(spec, t, u):
@@ -1029,13 +1035,32 @@ INVALIDATORS = [
 ]
 
 
-def invalidate(rng, spec, kind):
+def invalidate(rng, spec, kind, name=None):
     """returns (spec', [expected label, subject]) or None; the subject is the
-    one the validator should name"""
+    one the validator should name; [name] forces the bad name of a bad_* kind"""
     try:
+        if name is not None:
+            rng = _ForcedChoice(rng, name)
         return _invalidate(rng, spec, kind)
     except IndexError:      # nothing left to pick from after earlier invalidations
         return None
+
+
+class _ForcedChoice:
+    """an rng whose choice() from a pool of bad names returns the forced one"""
+
+    def __init__(self, rng, name):
+        self._rng, self._name = rng, name
+
+    def choice(self, xs):
+        xs = list(xs)
+        if xs and all(isinstance(x, str) for x in xs) and (
+                set(xs) <= set(BAD_NAMES) or set(xs) <= set(BAD_TYPE_NAMES)):
+            return self._name
+        return self._rng.choice(xs)
+
+    def __getattr__(self, a):
+        return getattr(self._rng, a)
 
 
 def _invalidate(rng, spec, kind):
@@ -1047,7 +1072,7 @@ def _invalidate(rng, spec, kind):
         td = pick([t for t in sp["types"] if t["name"] not in ("Query", "Mutation")])
         if td is None:
             return None
-        new = rng.choice(["1Bad", "__Bad", "Ba-d", "Bad\n"])
+        new = rng.choice(BAD_TYPE_NAMES)
         if any(t["name"] == new for t in sp["types"]):
             return None
         _rename_type(sp, td["name"], new)
